@@ -256,6 +256,12 @@ def run(tier, seed, replay=None):
     for c in range(n // 3):
         txt, want = immut_probe(rng)
         cases.append({'id': len(cases), 'kind': 'immut', 'cmds': [['evalstr', '111', txt]], 'text': txt, 'want': 'ok ' + ser(want)})
+    # membership of a list in a list of lists, whatever operation produced the lists (literal, list, zip, map, range, slice, rest)
+    for txt, want in [("(in '(1 2) (zip '(1 5) '(2 6)))", True), ("(in (range 2) '((0 1) (2 3)))", True), ("(in (list 1 2) (list (list 1 2) 3))", True),
+                      ("(in '(1 2) (map (fn [x] (list x 2)) '(1 3)))", True), ("(in (rest '(0 1 2)) (zip '(1) '(2)))", True),
+                      ("(in '(1 3) (zip '(1 5) '(2 6)))", False), ("(in (zip '(1) '(2)) '(((1 2))))", True), ("(in '(2 3) (list (slice '(1 2 3) 1 3)))", True),
+                      ("(in (map (fn [x] x) '(1 2)) '((1 2)))", True), ("(in '() (list (range 0)))", True)]:
+        cases.append({'id': len(cases), 'kind': 'list', 'cmds': [['evalstr', '111', txt]], 'text': txt, 'want': 'ok ' + ser(want)})
     if tier == 'thorough':
         k = 0
         for l in all_small_lists():
